@@ -24,6 +24,9 @@ TEXTS = {
     "line-separators": "{\n  a = \"x\u2028y\u2029z\x85w\";\n  # c\x0cd\x0be\x1cf\n  b = 2;\n}\n",
     "cr-in-comment": "{\n  a = 1; # x\ry\n}\n",
     "tabs-and-trailing": "{ a = 1; }\n\n\n",
+    # a byte-order mark is part of the text: both channels must hand the same characters to the library
+    "bom": "\ufeff{\n  a = 1;\n  b = 2;\n}\n",
+    "bom-noncanonical": "\ufeff{a=1;}\n",
 }
 COMMANDS = [("test",), ("set", "a", "2"), ("set", "z", '"s"'), ("set", "a", "{"), ("set", "a..b", "1"), ("set", "@v", "3"),
             ("rm", "a"), ("rm", "zz"), ("rm", ""), ("set", "m.x", "[ 1 ]"), ("bogus",), ()]
